@@ -219,16 +219,29 @@ def check(run):
            F.where(fz, vm), "NoKeyword has no spelling and must have weight 0")
     # ---- R3 separators
     # the separator closure, by role: the let-bound closure whose body calls the lexer's is_identifier_continuation
-    sep_closure, sep_lid = None, None
+    sep_closure, sep_lid, sep_fn = None, None, None
     for n in walk(fz["hir"]):
         if n.get("k") == "Let" and isinstance(n.get("init"), dict) and n["init"].get("k") == "Closure" and \
                 any(hirq.callee(c) == "delta::lexer::is_identifier_continuation" for c in hirq.calls(n["init"]["body"])):
             sep_closure, sep_lid = n["init"], n["pat"].get("lid")
+    if sep_closure is None:
+        # ... or a function item nested in the fuzzer (`fn add_space_if_necessary(buffer: &mut String) {..}`)
+        for pth, nb in F.lib.bodies.items():
+            if pth.startswith(FZ + "::") and "{closure" not in pth and "hir" in nb and \
+                    any(hirq.callee(c) == "delta::lexer::is_identifier_continuation" for c in hirq.calls(nb["hir"])):
+                sep_closure, sep_fn = {"body": nb["hir"], "k": "Closure", "l": nb.get("line")}, pth
+
+    def calls_sep(c):
+        if c.get("k") != "Call":
+            return False
+        if sep_fn is not None:
+            return hirq.callee(c) == sep_fn
+        return sep_lid is not None and hirq.unwrap_trivial(c["f"]).get("lid") == sep_lid
     starts_wordlike = {"Identifier", "Builtin", "ValueTypeKeyword", "NakedDecimal", "BitInteger", "SuffixedInteger", "BoolLiteral"}
     for v, a in explicit.items():
         calls = list(hirq.calls(a["body"]))
         first = calls[0] if calls else None
-        first_is_space = first is not None and first.get("k") == "Call" and hirq.unwrap_trivial(first["f"]).get("lid") == sep_lid and sep_lid is not None
+        first_is_space = first is not None and calls_sep(first)
         if v in starts_wordlike:
             run.ob("R3-SEPARATOR", v, first_is_space, F.where(fz, a),
                    "the %s arm writes text starting with an identifier-continuation character and must call "
@@ -243,8 +256,7 @@ def check(run):
     for n in walk(fallback["body"]):
         if n.get("k") == "If":
             cc = [hirq.callee(c) for c in hirq.calls(n["cond"])]
-            tc = [hirq.unwrap_trivial(c["f"]).get("lid") for c in hirq.calls(n["then"]) if c.get("k") == "Call"]
-            if "delta::lexer::is_identifier_continuation" in cc and sep_lid in tc and sep_lid is not None:
+            if "delta::lexer::is_identifier_continuation" in cc and any(calls_sep(c) for c in hirq.calls(n["then"])):
                 ok = True
     run.ob("R3-SEPARATOR", "fallback", ok, F.where(fz, fallback),
            "keywords and `_` emitted by the fallback arm need add_space_if_necessary when they start with an identifier-continuation byte")
